@@ -114,11 +114,29 @@ func (p *Program) TypesPkg(rel string) *types.Package {
 	return tp.Types
 }
 
+// RoleFunc / RoleType are installed by the role model (props.Prepare): they
+// resolve an unexported function ("pkgname.canonicalName") or type by the
+// structural role it plays, so that renaming it does not matter. They are
+// consulted before the lookup by name.
+var (
+	RoleFunc func(key string) *ssa.Function
+	RoleType func(pkgPath, name string) *types.Named
+)
+
+func roleKey(pkgPath, name string) string {
+	return pkgPath[strings.LastIndex(pkgPath, "/")+1:] + "." + name
+}
+
 // Func returns a package-level function.
 func (p *Program) Func(rel, name string) *ssa.Function {
 	sp := p.Pkg(rel)
 	if sp == nil {
 		return nil
+	}
+	if RoleFunc != nil {
+		if f := RoleFunc(roleKey(sp.Pkg.Path(), name)); f != nil {
+			return f
+		}
 	}
 	return sp.Func(name)
 }
@@ -128,6 +146,11 @@ func (p *Program) NamedType(rel, name string) *types.Named {
 	tp := p.TypesPkg(rel)
 	if tp == nil {
 		return nil
+	}
+	if RoleType != nil {
+		if n := RoleType(tp.Path(), name); n != nil {
+			return n
+		}
 	}
 	o := tp.Scope().Lookup(name)
 	if o == nil {
@@ -139,6 +162,23 @@ func (p *Program) NamedType(rel, name string) *types.Named {
 
 // Method returns the SSA function for method name of T (T may be pointer).
 func (p *Program) Method(T types.Type, name string) *ssa.Function {
+	if RoleFunc != nil {
+		t := T
+		if pt, ok := t.(*types.Pointer); ok {
+			t = pt.Elem()
+		}
+		if n, ok := t.(*types.Named); ok && n.Obj().Pkg() != nil {
+			if f := RoleFunc(roleKey(n.Obj().Pkg().Path(), name)); f != nil && f.Signature.Recv() != nil {
+				rt := f.Signature.Recv().Type()
+				if pt, ok := rt.(*types.Pointer); ok {
+					rt = pt.Elem()
+				}
+				if rn, ok := rt.(*types.Named); ok && rn.Origin().Obj() == n.Origin().Obj() {
+					return f
+				}
+			}
+		}
+	}
 	ms := p.SSA.MethodSets.MethodSet(T)
 	for i := 0; i < ms.Len(); i++ {
 		if ms.At(i).Obj().Name() == name {
